@@ -1290,7 +1290,7 @@ class NumberOrderedForm(Operator):
             # Now multiply by the number part
             partial = partial._multiply_expr(coeff)
             # Finally, multiply by annihilation operators
-            for i, power in enumerate(powers):
+            for i, power in reversed(list(enumerate(powers))):
                 if not power > 0:
                     continue
                 partial = partial._multiply_op(i, power)
